@@ -230,6 +230,16 @@ CHECKS = {
         "DESIGN.md §4 C19",
         "A",
     ),
+    "C20": (
+        "model_checking",
+        "explicit-state exploration of test histories (every ordered subset / doubling of the tests of a generated contract, repeated runs in one process, three injective symbol-suffix generators), each executed by the real run_contract and compared test by test with the solo result and with a brute force on a reference EVM",
+        "One generated contract with ten tests chosen to expose leaks: a failing and a passing test, a test that writes the storage variable every other test reads, a test that computes keccak(p) at run time and a test that reads the constant slot keccak(p) written by setUp, two tests that re-read calldata after a branch (one can never "
+        "fail, one fails for exactly one input: sibling-path isolation), and two invariant tests sharing the frontier cache. Histories: every test doubled, every ordered pair, selected (thorough: all) ordered triples, the full list in both orders; a subset again with reversed and multiplicative uid() generators and run twice in one process. "
+        "Oracle: the normalised result of every test in every history (exit code, path counts, number of counterexamples, validity flags, replay outcome of each valid counterexample on the reference EVM, bounded loops) equals its solo result; solo results agree with a brute force (PASS: no failing input; FAIL: expected input set; invariant verdicts at depth 2).",
+        "Trusted: mc/refevm.py, mc/e2e.py, mc/invgen.py. Concrete model values are not compared across runs (a solver may return any model): their replay is. uid() is rebound in the harness process (seam).",
+        "DESIGN.md §4 C20",
+        "A",
+    ),
 }
 
 NOT_YET = "check not built yet in this session (work in progress; see DESIGN.md §4 for the planned bounded-exhaustive check)"
